@@ -3,6 +3,9 @@ pub mod common;
 pub mod selfcheck;
 pub mod c01;
 pub mod c12;
+pub mod c13;
+pub mod c14;
+pub mod c15;
 
 use super::explore::Ctx;
 
@@ -10,6 +13,9 @@ pub fn run(prop: &str, ctx: &mut Ctx) -> bool {
     match prop {
         "C01" => c01::run(ctx),
         "C12" => c12::run(ctx),
+        "C13" => c13::run(ctx),
+        "C14" => c14::run(ctx),
+        "C15" => c15::run(ctx),
         _ => return false,
     }
     true
